@@ -6,7 +6,8 @@ BBSNOTE = ("Theorems hold for every lawful environment. For the concrete, execut
            "with canonical codec, the point codecs are canonical, G1 and G2 with the executable operations are the elliptic-curve groups (Mathlib's group law) and "
            "prime-order modules over the scalar field (Zk.ConcreteG1, Zk.ConcreteG2), and that every model function commutes with homomorphisms, so that a run on "
            "the executable instance is the image of a run on the lawful subtype instance (Zk.Transfer, Zk.Bridge); ASSUMED (hypotheses, never axioms): the pairing "
-           "product check is bilinear and non-degenerate, hash_to_curve lands in the prime-order subgroup, SHA-256/SHAKE-256 are modelled (KAT-pinned). "
+           "product check is bilinear and non-degenerate, cofactor clearing maps E1(Fp) into the prime-order subgroup (that hash_to_curve outputs are on the curve is proven, "
+           "Zk.ConcreteH2C), SHA-256/SHAKE-256 are modelled (KAT-pinned). "
            "Model = code rests on the correspondence run of this check (generated cases + corpus). Axioms: propext, Classical.choice, Quot.sound only.")
 CLNOTE = ("Theorems are about the Int-level CL03 model in ZMod N; rug/GMP integer semantics, SHA-256 and the primality oracle are modelled, not verified. "
           "Model = code rests on the correspondence run (every random draw is replayed from the recorded tape and checked against its contract). "
